@@ -11,6 +11,7 @@ import (
 	"encoding/binary"
 	"encoding/hex"
 	"encoding/pem"
+	"flag"
 	"fmt"
 	"math/big"
 	"os"
@@ -94,6 +95,8 @@ type world struct {
 	efiRoot   string
 	elPath    string
 	salt      *detReader
+	tmp       bool
+	fresh     bool // first worker of the shard (not a restart after a death)
 }
 
 func parseKey(p string) *rsa.PrivateKey {
@@ -447,17 +450,25 @@ func mkWorld() *world {
 
 // scratch prepares the per-process scratch directory: an efivarfs look-alike and the event-log file.
 func (w *world) scratch() {
-	// stale directories of processes that died are removed opportunistically
-	if old, err := filepath.Glob(filepath.Join(os.TempDir(), "verif-c07-*")); err == nil {
-		for _, p := range old {
-			if st, err := os.Stat(p); err == nil && time.Since(st.ModTime()) > 2*time.Hour {
-				os.RemoveAll(p)
-			}
+	// The scratch directory lives next to the event log of this shard (the supervisor removes the log
+	// directory after the run, and a worker restarted after a death reuses it); without a log path
+	// (direct invocation) a temporary directory is used and removed at the end.
+	d := ""
+	if f := flag.Lookup("log"); f != nil && f.Value.String() != "" {
+		d = f.Value.String() + ".scratch"
+		if w.fresh {
+			os.RemoveAll(d)
+		}
+		if err := os.MkdirAll(d, 0o755); err != nil {
+			d = ""
 		}
 	}
-	d, err := os.MkdirTemp("", "verif-c07-")
-	if err != nil {
-		panic(err)
+	if d == "" {
+		t, err := os.MkdirTemp("", "verif-c07-")
+		if err != nil {
+			panic(err)
+		}
+		d, w.tmp = t, true
 	}
 	w.dir = d
 	w.efiRoot = filepath.Join(d, "efivars")
@@ -482,4 +493,5 @@ func (w *world) cleanup() {
 	if w.dir != "" {
 		os.RemoveAll(w.dir)
 	}
+	_ = w.tmp
 }
